@@ -36,11 +36,12 @@ CONSTANTS
   Mults = {3, 5}
   Asns = {65001, 65002}
   MaxSteps = %(steps)d
+  Mode = "%(mode)s"
 INVARIANTS
   Emit
 """
 
-BFD_INVS = ["Conf_OpSucceeded", "C20_BfdHelperSet", "C20_BfdHelperParams", "C20_BfdNoGoroutineLeak"]
+BFD_INVS = ["Gap_OpSucceeded", "C20_BfdHelperSet", "C20_BfdHelperParams", "C20_BfdNoGoroutineLeak"]
 
 
 def bfd_group(run):
@@ -50,14 +51,17 @@ def bfd_group(run):
     if not run.replay:
         res = v.tlc(run.sc, "BfdReg", "MCBfdReg.cfg", timeout=600, coverage=thorough, deadlock=False)
         run.design(res, "BfdReg (BFD helper registry: call-site rules imply the property, 3 neighbours)")
-    plans = [("bfd-exh", "check", '"n1"', 4 if not thorough else 5, None),
-             ("bfd-walk", "simulate", '"n1", "n2", "n3"', 10 if not thorough else 14, 150 if not thorough else 1500)]
-    for grp, mode, nbrs, steps, num in plans:
+    plans = [("bfd-exh", "check", '"n1"', 4 if not thorough else 5, None, "plain", "{3, 5}"),
+             # the peer group: neighbours configured only through it, every history of 3 (4) operations after
+             # StartBgp and AddPeerGroup over two members
+             ("bfd-grp", "check", '"n1", "n2"', 5 if not thorough else 6, None, "group", "{3}"),
+             ("bfd-walk", "simulate", '"n1", "n2", "n3"', 10 if not thorough else 14, 150 if not thorough else 1500, "all", "{3, 5}")]
+    for grp, mode, nbrs, steps, num, gmode, mults in plans:
         if run.replay:
             behs = run.replay_behaviours(grp)
         else:
             cfg = "BfdRegGen_%s.cfg" % grp
-            v.write_cfg(run.sc, cfg, BFD_GEN % {"nbrs": nbrs, "steps": steps})
+            v.write_cfg(run.sc, cfg, (BFD_GEN % {"nbrs": nbrs, "steps": steps, "mode": gmode}).replace("Mults = {3, 5}", "Mults = " + mults))
             if mode == "check":
                 res = v.tlc(run.sc, "BfdRegGen", cfg, workers=1, deadlock=False, timeout=900)
             else:
